@@ -5,7 +5,8 @@
 (* may move: a copy takes the source's, an edit gives the edited side a    *)
 (* fresh one, saving and destroying change nothing on the other side.  TLC *)
 (* explores every interleaving of edits, saves and destructions of both    *)
-(* sides after a copy (constructor or assignment) up to Depth steps; each  *)
+(* sides after a copy (constructor or assignment) up to Depth steps, and   *)
+(* of up to Pre edits/saves of the source before the copy; each           *)
 (* behaviour is exported and executed on real NifFile objects under        *)
 (* AddressSanitizer; NifCopyTrace judges the recorded projections:         *)
 (*   CopyEqual  right after the copy both sides project and save equally   *)
@@ -14,26 +15,32 @@
 (*              block of its own model                                     *)
 (***************************************************************************)
 EXTENDS Integers, Sequences, FiniteSets, TLC, Json
-CONSTANTS Depth, Export
+CONSTANTS Depth, Pre, Export
 VARIABLES a, b, alive, fresh, hist
 Sides == {"A", "B"}
 Edits == {"RenameNode", "MoveVerts", "SetTriangles", "DeleteShape", "AddNode", "DeleteBlock", "SetTexture"}
 Other(x) == IF x = "A" THEN "B" ELSE "A"
 Init == a = 1 /\ b = 0 /\ alive = {"A"} /\ fresh = 2 /\ hist = <<>>
 Rec(act) == hist' = Append(hist, act)
-Copy(kind) == /\ hist = <<>> /\ b' = a /\ alive' = {"A", "B"} /\ UNCHANGED <<a, fresh>> /\ Rec([op |-> "Copy", kind |-> kind])
-Edit(x, e) == /\ x \in alive /\ Len(hist) >= 1
+\* the source may have been edited or saved (at most Pre steps) before it is copied: what is copied is any live model, not
+\* only a freshly loaded one
+CopyAt == IF \E k \in 1..Len(hist) : hist[k].op = "Copy" THEN CHOOSE k \in 1..Len(hist) : hist[k].op = "Copy" ELSE 0
+Copied == CopyAt > 0
+After == IF Copied THEN Len(hist) - CopyAt ELSE 0
+\* (a behaviour with pre-copy steps gets one step less afterwards: the space stays small enough to execute every behaviour)
+Room == IF Copied THEN After < (IF CopyAt > 1 THEN Depth - 1 ELSE Depth) ELSE Len(hist) < Pre
+Copy(kind) == /\ ~Copied /\ b' = a /\ alive' = {"A", "B"} /\ UNCHANGED <<a, fresh>> /\ Rec([op |-> "Copy", kind |-> kind])
+Edit(x, e) == /\ x \in alive /\ Room
               /\ IF x = "A" THEN a' = fresh /\ UNCHANGED b ELSE b' = fresh /\ UNCHANGED a
               /\ fresh' = fresh + 1 /\ UNCHANGED alive /\ Rec([op |-> "Edit", side |-> x, edit |-> e])
-Save(x, opt) == /\ x \in alive /\ Len(hist) >= 1 /\ UNCHANGED <<a, b, alive, fresh>> /\ Rec([op |-> "Save", side |-> x, opt |-> opt])
-Destroy(x) == /\ x \in alive /\ Len(hist) >= 1 /\ alive' = alive \ {x} /\ UNCHANGED <<a, b, fresh>> /\ Rec([op |-> "Destroy", side |-> x])
-Next == /\ Len(hist) < Depth + 1
-        /\ \/ \E k \in {"construct", "assign"} : Copy(k)
-           \/ \E x \in Sides, e \in Edits : Edit(x, e)
-           \/ \E x \in Sides, o \in {"raw", "default"} : Save(x, o)
-           \/ \E x \in Sides : Destroy(x)
+Save(x, opt) == /\ x \in alive /\ Room /\ UNCHANGED <<a, b, alive, fresh>> /\ Rec([op |-> "Save", side |-> x, opt |-> opt])
+Destroy(x) == /\ x \in alive /\ Copied /\ Room /\ alive' = alive \ {x} /\ UNCHANGED <<a, b, fresh>> /\ Rec([op |-> "Destroy", side |-> x])
+Next == \/ \E k \in {"construct", "assign"} : Copy(k)
+        \/ \E x \in Sides, e \in Edits : Edit(x, e)
+        \/ \E x \in Sides, o \in {"raw", "default"} : Save(x, o)
+        \/ \E x \in Sides : Destroy(x)
 Spec == Init /\ [][Next]_<<a, b, alive, fresh, hist>>
 \* design-level statements of the machine
-CopyEqual == (Len(hist) = 1) => a = b
-Emit == (Export /\ (Len(hist) = Depth + 1 \/ alive = {})) => PrintT(ToJson(hist))
+CopyEqual == (Copied /\ After = 0) => a = b
+Emit == (Export /\ Copied /\ (~Room \/ alive = {})) => PrintT(ToJson(hist))
 =============================================================================
